@@ -395,6 +395,30 @@ pub fn scenarios(tier: Tier) -> Vec<Scenario> {
                 ],
                 ops: vec![SOp::Poll, SOp::Add { user: 1, disp: 1, blob: Blob::Valid }],
             },
+            // reads of the subscription next to everything that writes it
+            Scenario {
+                name: "info-vs-renewal".into(),
+                cfg,
+                seed: vec![Ev::Register(1), add(1, 1, Blob::Valid)],
+                ops: vec![SOp::Info(1), SOp::Register(1)],
+            },
+            Scenario {
+                name: "info-vs-add".into(),
+                cfg,
+                seed: vec![Ev::Register(1), add(1, 1, Blob::Valid)],
+                ops: vec![SOp::Info(1), SOp::Add { user: 1, disp: 2, blob: Blob::Valid }],
+            },
+            Scenario {
+                name: "info-vs-completion-refund".into(),
+                cfg,
+                seed: {
+                    let mut s = crate::checks_t::seed("S5");
+                    s.push(Ev::MineP(MineSel::Empty));
+                    s.push(Ev::Mine(MineSel::Empty));
+                    s
+                },
+                ops: vec![SOp::Poll, SOp::Info(1)],
+            },
             Scenario {
                 name: "purge-at-expiry-vs-update".into(),
                 cfg: TowerCfg { slots: 3, duration: 1, grace: 0, txindex: false },
